@@ -250,7 +250,7 @@ Lemma st_update_shape b name rowid cols vals b1 ws :
   exists pg bs, leaf_has (forest b) pg rowid /\ (MV <? length bs)%nat = false /\
     b1 = touched b pg rowid (upd_fun bs) /\ ws = [mkWal OpUpdate (nextLSN b) pg rowid bs].
 Proof.
-  intros G. unfold st_update.
+  intros G. unfold st_update. destruct (is_sys_table name); [discriminate|].
   destruct (rel_offset b name) as [off|e|]; cbn [bind]; try discriminate.
   destruct (get_tree b off) as [t|e|] eqn:Eg; cbn [bind]; try discriminate.
   destruct (rel_schema b name) as [sch|e|]; cbn [bind]; try discriminate.
@@ -273,7 +273,7 @@ Lemma st_delete_shape b name rowid b1 ws :
   exists pg, leaf_has (forest b) pg rowid /\
     b1 = touched b pg rowid del_fun /\ ws = [mkWal OpDelete (nextLSN b) pg rowid []].
 Proof.
-  unfold st_delete.
+  unfold st_delete. destruct (is_sys_table name); [discriminate|].
   destruct (rel_offset b name) as [off|e|]; cbn [bind]; try discriminate.
   destruct (get_tree b off) as [t|e|] eqn:Eg; try discriminate.
   destruct (get_tree_in _ _ _ Eg) as [Hin _].
@@ -341,7 +341,7 @@ Lemma log_st_insert log b name cols vals b2 ws :
   GL log b -> st_insert b name cols vals = (b2, Ok ws) -> GL (log ++ ws) b2.
 Proof.
   intros HG Hst.
-  destruct (st_insert_shape _ _ _ _ _ _ Hst) as (off & bs & b1 & k & lsn & nr & Hpre & Hbt & Hcase).
+  destruct (st_insert_shape _ _ _ _ _ _ Hst) as (off & bs & b1 & k & lsn & nr & _ & Hpre & Hbt & Hcase).
   assert (H1 : GL (log ++ [mkWal OpInsert lsn off k bs]) b1).
   { destruct HG as [G L]. apply gl_app.
     - replace b1 with (fst (bt_insert b off bs)) by (rewrite Hbt; reflexivity).
